@@ -718,7 +718,7 @@ class Node:
                         if conn.state == PEER_CLOSED:
                             self.close_connection_socket(
                                 conn, DISCONNECT_REASON_CLEAN_DISCONNECT)
-                        elif len(conn.write_buffer) == 0 and conn.state == PEER_CLOSING:
+                        elif not conn.has_pending_output and conn.state == PEER_CLOSING:
                             self.connection_logger.debug(
                                 f"{conn} in CLOSING state and no more bytes to "
                                 f"send, closing socket")
@@ -823,7 +823,7 @@ class Node:
                         continue
 
                 if len(conn.write_buffer) == 0:
-                    if conn.state == PEER_CLOSING:
+                    if conn.state == PEER_CLOSING and not conn.has_pending_output:
                         self.connection_logger.debug(
                             f"{conn} in CLOSING state nothing to write, "
                             f"closing socket")
@@ -857,7 +857,7 @@ class Node:
                         f"{conn} sent {sent_bytes} bytes, "
                         f"{len(conn.write_buffer)} bytes remain")
 
-                    if len(conn.write_buffer) == 0 and conn.state == PEER_CLOSING:
+                    if not conn.has_pending_output and conn.state == PEER_CLOSING:
                         self.connection_logger.debug(
                             f"{conn} in CLOSING state and no more bytes to "
                             f"send, closing socket")
